@@ -34,6 +34,7 @@ ENV.pop("AWKPATH", None)
 NCPU = max(2, min(16, os.cpu_count() or 4))
 import itertools
 _SEQ = itertools.count()
+_HANGS = 0
 _EXE = None
 
 
@@ -54,6 +55,22 @@ def run_one(cmd, cwd, stdin_bytes, timeout):
     return rc, out, err
 
 
+def cmdline_args(case, prog):
+    """[-F fs] [-v var=value]… -f prog operand…  (operand = file name or var=value)"""
+    cl = case.get("cmdline")
+    if not cl:
+        return ["-f", prog] + [n for n, _ in case["files"]]
+    a = []
+    if cl.get("fopt"):
+        a += ["-F", cl["fopt"][0]]
+    for n, raw, _ in cl["vopts"]:
+        a += ["-v", "%s=%s" % (n, raw)]
+    a += ["-f", prog]
+    for o in cl["operands"]:
+        a.append(o[1] if o[0] == "file" else "%s=%s" % (o[1], o[2]))
+    return a
+
+
 def run_impl(cmd_prefix, base, tag, case, timeout):
     """run one awk implementation in a private directory; returns dict(rc, out, err, files)"""
     d = os.path.join(base, tag)
@@ -63,7 +80,7 @@ def run_impl(cmd_prefix, base, tag, case, timeout):
         with open(os.path.join(d, n), "wb") as f:
             f.write(c.encode("latin-1"))
         given.add(n)
-    cmd = cmd_prefix + ["-f", os.path.join(base, "prog.awk")] + [n for n, _ in case["files"]]
+    cmd = cmd_prefix + cmdline_args(case, os.path.join(base, "prog.awk"))
     rc, out, err = run_one(cmd, d, case["stdin"].encode("latin-1"), timeout)
     files = {}
     for n in sorted(os.listdir(d)):
@@ -83,7 +100,12 @@ def run_three(hawk, scratch, cid, case, timeout=10, which=("h", "g", "m")):
         f.write(case["prog_txt"])
     res = {}
     if "h" in which:
-        res["h"] = run_impl([hawk] + HAWK_ARGS + (HAWK_ARGS_FIELDCMP if case.get("fieldcmp") else []), base, "h", case, timeout)
+        # bound what a hanging tree can cost: after three hangs of hawk the remaining runs get a short leash
+        global _HANGS
+        th = timeout if _HANGS < 3 else min(timeout, 2)
+        res["h"] = run_impl([hawk] + HAWK_ARGS + (HAWK_ARGS_FIELDCMP if case.get("fieldcmp") else []), base, "h", case, th)
+        if res["h"]["rc"] == -9:
+            _HANGS += 1
     if "g" in which:
         res["g"] = run_impl(GAWK, base, "g", case, timeout)
     if "m" in which:
@@ -228,12 +250,13 @@ def show(o, limit=1500):
 def replay_text(case, res, model, verdict):
     t = "# C02 replay: awk program, inputs, and the outputs of hawk / gawk --posix / mawk / Lean model\n"
     t += "# verdict: %s %s\n" % (verdict["kind"], verdict.get("detail", ""))
-    t += "# run: cd <dir with the files below>; hawk %s -f prog.awk %s%s\n" % (
+    import shlex
+    t += "# run: cd <dir with the files below>; hawk %s %s%s\n" % (
         " ".join(HAWK_ARGS + (HAWK_ARGS_FIELDCMP if case.get("fieldcmp") else [])),
-        " ".join(n for n, _ in case["files"]), " < stdin" if not case["files"] else "")
+        " ".join(shlex.quote(a) for a in cmdline_args(case, "prog.awk")), " < stdin" if not case["files"] else "")
     t += "CASE " + json.dumps(dict(prog_txt=case["prog_txt"], prog_sx=case["prog_sx"], files=case["files"],
                                     stdin=case["stdin"], extra=case["extra"], fieldcmp=case.get("fieldcmp", False),
-                                    regex_alts=case.get("regex_alts", []), rmw_alts=case.get("rmw_alts", []),
+                                    regex_alts=case.get("regex_alts", []), rmw_alts=case.get("rmw_alts", []), cmdline=case.get("cmdline"),
                                     twin_rmw_alts=case.get("twin_rmw_alts", []), twin_txt=case.get("twin_txt"),
                                     twin_sx=case.get("twin_sx"), twin_regex_alts=case.get("twin_regex_alts", []))) + "\n"
     t += "## prog.awk\n" + case["prog_txt"]
@@ -252,7 +275,11 @@ def replay_text(case, res, model, verdict):
 
 # ------------------------------------------------------------------------------------------ shrinking
 def rebuild(case, items, files, stdin, extra):
-    txt, psx = G.render_items(items)
+    G.LEX_SALT = case.get("lex_salt")
+    try:
+        txt, psx = G.render_items(items)
+    finally:
+        G.LEX_SALT = None
     c = dict(case)
     c.update(items=items, prog_txt=txt, prog_sx=psx, files=files, stdin=stdin, extra=extra)
     return c
@@ -572,7 +599,159 @@ def exhaustive_cases(quick):
                              G.not_(G.var("x")), G.idx("A", [G.num(1)]), G.isin("A", [G.num(1)])]))
     out.append(_mk([_item("begin", prints)], [], {"exhaustive-uninit"}))
     out += exhaustive_exit_in_function() + exhaustive_refill() + exhaustive_loops() + exhaustive_field_histories(quick)
-    out += exhaustive_stream_histories()
+    out += exhaustive_stream_histories() + exhaustive_cmdline() + exhaustive_special_values() + exhaustive_regex_builtins()
+    out += exhaustive_printf_flags()
+    return out
+
+
+def _re(spec, al=False, ar=False):
+    """spec: list of (atom, quant); atom = a literal character, "." or ("cls", negated, chars, text)"""
+    txt, items = "", []
+    for a, q in spec:
+        if a == ".":
+            at, asx = ".", "any"
+        elif isinstance(a, tuple):
+            at, asx = a[3], G.sx("cls", "1" if a[1] else "0", G.hx(a[2]))
+        else:
+            at, asx = G.re_escape_lit(a), G.sx("ch", G.hx(a))
+        txt += at + {"one": "", "star": "*", "plus": "+", "opt": "?"}[q]
+        items.append(G.sx("item", asx, q))
+    return G.Re(("^" if al else "") + txt + ("$" if ar else ""), G.sx("re", "1" if al else "0", "1" if ar else "0", *items))
+
+
+def exhaustive_regex_builtins():
+    """match() with RSTART/RLENGTH and regular-expression sub/gsub (leftmost-longest, `&`), every expression of a small
+    family on every subject of a small family; the same target refilled call after call"""
+    digits = ("cls", False, "0123456789", "[0-9]")
+    res = [_re([("b", "plus")]), _re([("a", "one")], al=True), _re([("c", "one")], ar=True), _re([("x", "star")]),
+           _re([(digits, "plus")]), _re([("a", "one"), (".", "one"), ("c", "one")]), _re([("b", "opt"), ("c", "one")]),
+           _re([("a", "one"), ("b", "star"), ("c", "one")], al=True, ar=True), _re([(("cls", True, "ab", "[^ab]"), "plus")])]
+    subjects = ["abbbc", "", "abc123c", "xyz", "aXc abc"]
+    body = []
+    for r in res:
+        for sbj in subjects:
+            body.append(_st_print([G.matchfn(G.strlit(sbj), r), G.var("RSTART"), G.var("RLENGTH")]))
+    out = [_mk([_item("begin", body)], [], {"exhaustive-regex-builtins", "match()"})]
+    nonnull = [res[0], res[1], res[2], res[4], res[5], res[6], res[8]]
+    for glob in (False, True):
+        body = []
+        for r in nonnull:
+            for sbj in subjects:
+                body.append(_st(G.assign("set", G.var("s"), G.strlit(sbj))))
+                for rep in ("-", "[&]", ""):
+                    body.append(_st(G.assign("set", G.var("n"), G.substre(glob, r, G.strlit(rep), G.var("s")))))
+                    body.append(_st_print([G.var("n"), G.var("s")]))
+        out.append(_mk([_item("begin", body)], [], {"exhaustive-regex-builtins", "sub-regex", "seq-sub"}))
+    # on $0 and on a field of every record
+    rule = [_st(G.assign("set", G.var("n"), G.substre(True, res[0], G.strlit("<&>")))), _st_print([G.var("n"), G.field(G.num(0)), G.var("NF")]),
+            _st(G.assign("set", G.var("n"), G.substre(False, res[4], G.strlit("#"), G.field(G.num(2))))), _st_print([G.var("n"), G.field(G.num(0)), G.var("NF")]),
+            _st_print([G.matchfn(G.field(G.num(0)), res[5]), G.var("RSTART"), G.var("RLENGTH")])]
+    out.append(_mk([_item("rule", rule)], [("f1.txt", "abbc 12 bb\n\nxbx a7c\nabc\n")], {"exhaustive-regex-builtins", "sub-regex", "match()"}))
+    return out
+
+
+def exhaustive_printf_flags():
+    """printf: every combination of the flags - 0 + space #, a width (also `*` from the argument list, negative too)
+    and a precision with d / x / o conversions on zero, a positive and a negative value"""
+    import itertools
+    body = []
+    for fl, w, pr, v in itertools.product(("", "+", " ", "-", "0", "+0", "-+", " -"), ("", "6"), ("", ".3"), (0, 42, -42)):
+        if "0" in fl and pr:
+            continue
+        fmt = "[%" + fl + w + pr + "d]\n"
+        body.append((['printf "%s", %s' % (fmt.replace("\n", "\\n"), G.num(v).txt)], G.sx("printf", "-", G.strlit(fmt).sx, G.num(v).sx), False))
+    out = [_mk([_item("begin", body)], [], {"exhaustive-printf-flags", "printf", "fmt-sign-flag"})]
+    body = []
+    for conv, fl, w, pr, v in itertools.product("xXo", ("", "#", "#0", "#-", "0", "-"), ("", "8"), ("", ".4"), (0, 255)):
+        if "0" in fl and pr:
+            continue
+        fmt = "[%" + fl + w + pr + conv + "]\n"
+        body.append((['printf "%s", %s' % (fmt.replace("\n", "\\n"), G.num(v).txt)], G.sx("printf", "-", G.strlit(fmt).sx, G.num(v).sx), False))
+    for wv, fl, conv in itertools.product((6, -6, 0), ("", "-", "0"), ("d", "s")):
+        fmt = "[%" + fl + "*" + conv + "]\n"
+        a = [G.num(wv), G.num(42)]
+        body.append((['printf "%s", %s, %s' % (fmt.replace("\n", "\\n"), a[0].txt, a[1].txt)], G.sx("printf", "-", G.strlit(fmt).sx, a[0].sx, a[1].sx), False))
+    out.append(_mk([_item("begin", body)], [], {"exhaustive-printf-flags", "printf", "fmt-alt-flag", "fmt-star-width"}))
+    # %f %e %g (and E G) of integers: flags x width x precision x values around the rounding / style boundaries
+    body = []
+    for conv, fl, w, pr in itertools.product("feEgG", ("", "-", "0", "+", " "), ("", "12"), ("", ".0", ".2", ".3")):
+        for v in (0, 7, 42, 995, 2500, 3500, 12350, 99999, 999999, 1000000, 1234567, 123456789, -42, -1000000):
+            fmt = "[%" + fl + w + pr + conv + "]\n"
+            body.append((['printf "%s", %s' % (fmt.replace("\n", "\\n"), G.num(v).txt)], G.sx("printf", "-", G.strlit(fmt).sx, G.num(v).sx), False))
+    out.append(_mk([_item("begin", body)], [], {"exhaustive-printf-flags", "printf", "fmt-float-conv"}))
+    return out
+
+
+def exhaustive_cmdline():
+    """command-line assignments: where (-v | operand before the first file | between two files | after the last file)
+    x which variable (ordinary, OFS, FS, SUBSEP, NR) x what value (integer, word, text with escape sequences, empty);
+    the program prints the variable in BEGIN, for every record (with a rebuilt $0 and a print list, so that OFS/FS
+    matter) and in END.  Plus -F with a plain character, a tab escape and a digit."""
+    import itertools
+    out = []
+    files = [("f1.txt", "a:b c\nd e:f\n"), ("f2.txt", "g:h i\n")]
+
+    def prog(name):
+        v = G.var(name)
+        show = [G.cat(G.cat(G.strlit("["), v), G.strlit("]"))]
+        rule = [_st(G.assign("set", G.field(G.num(3)), G.strlit("Z"))), _st_print([G.var("NR"), G.field(G.num(0)), G.field(G.num(1))] + show),
+                _st(G.assign("set", G.idx("A", [G.num(1), G.num(2)]), G.var("NR")))]
+        acc = G.assign("add", G.var("tl"), G.builtin("length", [G.var("k")], "num"))
+        endb = [_st_print([G.strlit("end")] + show + [G.var("NR")]),
+                (["for (k in A) {", "  nk++", "  " + acc.txt, "}"],
+                 G.sx("forin", "k", "A", G.sx("blk", G.sx("expr", G.incdec(False, True, G.var("nk")).sx), G.sx("expr", acc.sx))), False),
+                _st_print([G.var("nk"), G.var("tl")])]     # (order-insensitive look at the keys built with SUBSEP)
+        return [_item("begin", [_st_print([G.strlit("begin")] + show)]), _item("rule", rule), _item("end", endb)]
+    values = {"x": ["7", "wd", "a\tb\\c", ""], "OFS": ["-", "\t", "", "12"], "FS": [":", "\t", "b"], "SUBSEP": [":", ""], "NR": ["10"]}
+    for name, vals in values.items():
+        for val, where in itertools.product(vals, ("v", "first", "between", "last")):
+            raw = G.cl_escape(val)
+            ops = [("file", "f1.txt"), ("file", "f2.txt")]
+            vopts = []
+            if where == "v":
+                vopts = [(name, raw, val)]
+            else:
+                ops.insert({"first": 0, "between": 1, "last": 2}[where], ("assign", name, raw, val))
+            c = _mk(prog(name), files, {"exhaustive-cmdline", "cmdline-" + ("v" if where == "v" else "operand")})
+            c["cmdline"] = dict(fopt=None, vopts=vopts, operands=ops)
+            out.append(c)
+    for val in (":", "\t", "b", " "):
+        c = _mk(prog("x"), files, {"exhaustive-cmdline", "cmdline-F"})
+        c["cmdline"] = dict(fopt=(G.cl_escape(val), val), vopts=[], operands=[("file", "f1.txt"), ("file", "f2.txt")])
+        out.append(c)
+    # assignments only, no file operand: standard input is read
+    c = _mk(prog("x"), [], {"exhaustive-cmdline", "cmdline-operand"})
+    c["stdin"] = "s1 s2\n"
+    c["cmdline"] = dict(fopt=None, vopts=[("OFS", "-", "-")], operands=[("assign", "x", "5", "5")])
+    out.append(c)
+    return out
+
+
+def exhaustive_special_values():
+    """OFS / ORS / SUBSEP / FS assigned in the program from every KIND of value — string literal, a never-assigned
+    variable, a number, a concatenation, another special variable — and then used by every consumer: print list,
+    $k = v rebuild, NF = n shrinking and growing, multi-dimensional subscript, field splitting of the next $0"""
+    out = []
+    un = G.var("never")
+
+    def kinds():
+        return [G.strlit("-"), un, G.num(7), G.cat(G.strlit("<"), G.num(1)), G.var("SUBSEP"), G.strlit("")]
+    for special in ("OFS", "ORS", "SUBSEP", "FS"):
+        for e in kinds():
+            if special == "FS" and e.sx in (un.sx, G.strlit("").sx, G.cat(G.strlit("<"), G.num(1)).sx, G.var("SUBSEP").sx):
+                continue       # an empty or multi-character FS is outside the profile
+            body = [_st(G.assign("set", G.var(special), e)),
+                    _st_print([G.strlit("p"), G.num(1), G.strlit("q")]),
+                    _st(G.assign("set", G.field(G.num(0)), G.strlit("a7b c7d e"))),
+                    _st_print([G.var("NF"), G.field(G.num(1)), G.field(G.num(2))]),
+                    _st(G.assign("set", G.field(G.num(2)), G.strlit("Y"))), _st_print([]),
+                    _st(G.assign("set", G.var("NF"), G.num(2))), _st_print([]),
+                    _st(G.assign("set", G.var("NF"), G.num(4))), _st_print([]), _st_print([G.field(G.num(0)), G.var("NF")]),
+                    _st(G.assign("set", G.idx("A", [G.num(1), G.strlit("k")]), G.num(1))),
+                    (["for (k in A) {", "  print k, length(k)", "}"], G.sx("forin", "k", "A", G.sx("blk", G.sx("print", "-", G.var("k").sx, G.builtin("length", [G.var("k")], "num").sx))), False),
+                    _st_print([G.isin("A", [G.num(1), G.strlit("k")])])]
+            rule = [_st(G.assign("set", G.field(G.num(1)), G.field(G.num(1)))), _st_print([]), _st_print([G.var("NF"), G.field(G.num(2))])]
+            out.append(_mk([_item("begin", body), _item("rule", rule)], [("f1.txt", "x7y z\n")], {"exhaustive-special-values", special + "=", "NF=", "$="}))
     return out
 
 
